@@ -217,18 +217,21 @@ def global_tables_immutable(ctx: Ctx, modules=("simfile.convert",)) -> None:
     ctx.floor("functions checked for table mutation", n, 6)
 
 
-def ssc_target_tables(ctx: Ctx) -> None:
+def ssc_target_tables(ctx: Ctx, direction: str = "both") -> None:
     """C16.3: nothing is invalid when the target is SSC."""
     inv = ctx.p.const(CV, "INVALID_PROPERTIES")
-    for cls in ("simfile.ssc.SSCSimfile", "simfile.ssc.SSCChart"):
+    for cls in (("simfile.ssc.SSCSimfile", "simfile.ssc.SSCChart") if direction in ("both", "sm_to_ssc") else ()):
         e = inv.get(ClassRef(cls))
         ctx.expect("R-TABLE", (CV, ""), f"INVALID_PROPERTIES[{cls.rsplit('.', 1)[-1]}] is empty", e == {}, str(e), f"{e}: properties would be dropped or refused on the way to SSC")
-    f = ctx.p.func(f"{CV}:sm_to_ssc")
-    cc = [c for c in calls(f) if callee_name(ctx, f, c) == f"{CV}:_convert"]
-    c = one(cc, "_convert call in sm_to_ssc")
-    kw = {k.arg: ast.unparse(k.value) for k in c.keywords}
-    ok = kw.get("output_simfile_type") == "SSCSimfile" and kw.get("output_chart_type") == "SSCChart" and kw.get("simfile") == f.param_names()[0]
-    ctx.expect("R-TABLE", f, "sm_to_ssc converts its argument to SSCSimfile / SSCChart", ok, "", str(kw), node=c)
+    if direction in ("both", "sm_to_ssc"):
+        f = ctx.p.func(f"{CV}:sm_to_ssc")
+        cc = [c for c in calls(f) if callee_name(ctx, f, c) == f"{CV}:_convert"]
+        c = one(cc, "_convert call in sm_to_ssc")
+        kw = {k.arg: ast.unparse(k.value) for k in c.keywords}
+        ok = kw.get("output_simfile_type") == "SSCSimfile" and kw.get("output_chart_type") == "SSCChart" and kw.get("simfile") == f.param_names()[0]
+        ctx.expect("R-TABLE", f, "sm_to_ssc converts its argument to SSCSimfile / SSCChart", ok, "", str(kw), node=c)
+    if direction == "sm_to_ssc":
+        return
     f2 = ctx.p.func(f"{CV}:ssc_to_sm")
     cc = [c for c in calls(f2) if callee_name(ctx, f2, c) == f"{CV}:_convert"]
     c = one(cc, "_convert call in ssc_to_sm")
@@ -237,7 +240,7 @@ def ssc_target_tables(ctx: Ctx) -> None:
     ctx.expect("R-TABLE", f2, "ssc_to_sm converts its argument to SMSimfile / SMChart", ok, "", str(kw), node=c)
 
 
-def warps_first(ctx: Ctx) -> None:
+def warps_first(ctx: Ctx, direction: str = "both") -> None:
     """C16.4 / C17.5: the warp check dominates every copy; negative BPMs and stops are refused."""
     p = ctx.p
     cv = p.func(f"{CV}:_convert")
@@ -274,8 +277,10 @@ def warps_first(ctx: Ctx) -> None:
             sm_ok = bool(neg) and srcs == sorted([f"BeatValues.from_str({sp}.bpms)", f"BeatValues.from_str({sp}.stops)"])
         if f"isinstance({sp}, SSCSimfile)" in pos:
             ssc_ok = any("warps" in a for a in pos)
-    ctx.expect("R-TABLE", cw, "an SM source with a negative BPM or stop is refused (both lists are checked)", sm_ok, "", "the 'value < 0 -> NotImplementedError' check no longer covers bpms and stops", node=cw.node)
-    ctx.expect("R-TABLE", cw, "an SSC source with warps is refused", ssc_ok, "", "", node=cw.node)
+    if direction in ("both", "sm_to_ssc"):
+        ctx.expect("R-TABLE", cw, "an SM source with a negative BPM or stop is refused (both lists are checked)", sm_ok, "", "the 'value < 0 -> NotImplementedError' check no longer covers bpms and stops", node=cw.node)
+    if direction in ("both", "ssc_to_sm"):
+        ctx.expect("R-TABLE", cw, "an SSC source with warps is refused", ssc_ok, "", "", node=cw.node)
 
 
 # ---------------------------------------------------------------------------
@@ -317,7 +322,11 @@ def may_raise(ctx: Ctx) -> None:
                     if (isinstance(a.ops[0], ast.NotIn) and pol) or (isinstance(a.ops[0], ast.In) and not pol):
                         exc = r.exc.func if isinstance(r.exc, ast.Call) else r.exc
                         guard = isinstance(exc, ast.Name) and exc.id == "KeyError"
-    require(guard, "SMChart.__setitem__ no longer raises KeyError for keys outside SM_CHART_PROPERTIES (raising summary not recognised)")
+    if not guard:
+        if not raises:
+            ctx.ok("R-EXC", p.func(f"{CV}:_copy_properties"), "SMChart.__setitem__ raises nothing", "no KeyError summary to propagate", node=si.node)
+            return
+        raise AnalysisError("SMChart.__setitem__ raises, but not in the recognised 'key outside SM_CHART_PROPERTIES -> KeyError' shape")
     inv = p.const(CV, "INVALID_PROPERTIES")
     listed = set()
     for kind, keys in inv.get(ClassRef("simfile.sm.SMChart"), {}).items():
